@@ -421,12 +421,42 @@ class _Gen:
                                      'return self.locationToAllele[chrom][pos][base]'], 'getAllelesAt: final tests: %r' % (rest,))
 
 
+    # ---- getAllele(reads): a fresh set, filled from getAllelesAt answers; the table's own sets are never modified
+    def get_allele(self):
+        f = self.fn('getAllele')
+        b = self.plain(f.body)
+        self.expect(len(b) == 3 and U(b[0]) == 'alleles = set()' and U(b[2]) == 'return alleles' and isinstance(b[1], ast.For)
+                    and U(b[1].target) == 'read' and U(b[1].iter) == 'reads' and not b[1].orelse,
+                    'getAllele: expected `alleles = set()`, one loop over reads, `return alleles` (a fresh result set): %r' % [U(x)[:50] for x in b])
+        rb = self.plain(b[1].body)
+        self.expect(len(rb) == 3 and isinstance(rb[0], ast.If) and U(rb[0].test) == 'read is None or read.is_unmapped'
+                    and [U(x) for x in rb[0].body] == ['continue'] and U(rb[1]) == 'chrom = read.reference_name'
+                    and isinstance(rb[2], ast.For) and U(rb[2].target) == '(readPos, refPos)'
+                    and U(rb[2].iter) == 'read.get_aligned_pairs(matches_only=True)' and not rb[2].orelse, 'getAllele: read loop')
+        pb = self.plain(rb[2].body)
+        self.expect(len(pb) == 3 and U(pb[0]) == 'readBase = read.query_sequence[readPos]'
+                    and U(pb[1]) == 'c = self.getAllelesAt(chrom, refPos, readBase)' and isinstance(pb[2], ast.If) and not pb[2].orelse
+                    and [U(x) for x in pb[2].body] == ['alleles.update(c)'], 'getAllele: aligned-pair loop: %r' % [U(x)[:60] for x in pb])
+        self.emit(pb[2].test, 'g_allele_keep', '(some : bool) (n : Z) : bool', self.bexp(pb[2].test, {'c is not None': 'some', 'len(c)': 'n'}))
+        # no other method may modify a set or dict of the table in place
+        for fn_ in [n for n in ast.walk(self.tree) if isinstance(n, ast.FunctionDef)]:
+            if fn_.name in ('fetchChromosome', 'read_cached', 'addAlleleInfoOneBased', '__init__'):
+                continue
+            for n in ast.walk(fn_):
+                if isinstance(n, ast.Call) and isinstance(n.func, ast.Attribute) and n.func.attr in ('update', 'add', 'discard', 'remove', 'pop', 'clear') \
+                        and U(n.func.value) != 'alleles':
+                    raise Untranslatable('%s: in-place modification %s (line %d) outside the loaders' % (fn_.name, U(n)[:60], n.lineno))
+                if isinstance(n, (ast.Assign, ast.AugAssign)) and 'locationToAllele' in U(n.targets[0] if isinstance(n, ast.Assign) else n.target):
+                    raise Untranslatable('%s: assignment into the allele table (line %d) outside the loaders' % (fn_.name, n.lineno))
+
+
 def regen_alleles():
     g = _Gen(fw.REPO)
     g.init()
     g.fetch()
     g.cache_io()
     g.lookups()
+    g.get_allele()
     py2coq.write_gen(os.path.join(fw.COQ, 'Gen', 'GenAlleles.v'), '', g.chunks)
     return g.meta
 
@@ -452,7 +482,69 @@ def cfg_val(cf):
             1 if cf['lazy'] else 0, 1 if cf['cache'] else 0, opt(cf['chrom'], fw.to_val)]
 
 
+# ---- getAllele(reads): an operation [2, reads]; a read = {'chrom','pos','seq','cigar'} or None
+def aligned_pairs(read):
+    """pysam's get_aligned_pairs(matches_only=True) for M/=/X, I, D, N, S operations"""
+    out, qp, rp = [], 0, read['pos']
+    for op, ln in read['cigar']:
+        if op in (0, 7, 8):
+            out += [(qp + k, rp + k) for k in range(ln)]
+            qp += ln; rp += ln
+        elif op in (1, 4):
+            qp += ln
+        elif op in (2, 3):
+            rp += ln
+    return out
+
+
+def read_sites(reads):
+    """the getAllelesAt calls getAllele(reads) makes, in order"""
+    out = []
+    for r in reads:
+        if r is None or r.get('unmapped'):
+            continue
+        for qp, rp in aligned_pairs(r):
+            out.append([0, r['chrom'], rp, r['seq'][qp]])
+    return out
+
+
+def expand_run(run):
+    """(run with getAllele operations replaced by their getAllelesAt calls, plan to fold the answers back)"""
+    qs, plan = [], []
+    for q in run['queries']:
+        if q[0] == 2:
+            sub = read_sites(q[1])
+            plan.append(('all', list(range(len(qs), len(qs) + len(sub)))))
+            qs += sub
+        else:
+            plan.append(('q', len(qs)))
+            qs.append(q)
+    return dict(run, queries=qs), plan
+
+
+def fold_alleles(answers):
+    """alleles = set(); for c in answers: if c is not None and len(c) == 1: alleles.update(c)"""
+    if any(a == -1 for a in answers):
+        return -1
+    names = set()
+    for a in answers:
+        if isinstance(a, list) and len(a) == 1 and len(a[0]) == 1:
+            names.add(tuple(a[0][0]))
+    return [[list(n) for n in sorted(names)]]
+
+
+def fold_run(plan, answers):
+    if answers == [-1]:
+        return [-1]
+    return [answers[e[1]] if e[0] == 'q' else fold_alleles([answers[k] for k in e[1]]) for e in plan]
+
+
+def expand_case(case):
+    return {'vcf': case['vcf'], 'history': [expand_run(run)[0] for run in case['history']]}
+
+
 def case_val(case):
+    case = expand_case(case)
     v = case['vcf']
     recs = [[fw.to_val(r['chrom']), r['pos'], fw.to_val(r['ref']), [fw.to_val(a) for a in r['alts']],
              [[opt(a, fw.to_val) for a in g] for g in rec_gts(r)]] for r in v['records']]
@@ -520,6 +612,11 @@ def is_lazy(cf):
 
 
 def spec_run(vcf, run):
+    xr, plan = expand_run(run)
+    return fold_run(plan, spec_run_raw(vcf, xr))
+
+
+def spec_run_raw(vcf, run):
     cf = run['cfg']
     if not is_lazy(cf) and cf['chrom'] is not None and cf['chrom'] not in vcf['contigs']:
         return [-1]
@@ -565,7 +662,8 @@ def same_sem(a, b):
 
 
 def name_ok(s):
-    return len(s) > 0 and all(ord(ch) not in SPACE and ch != ',' for ch in s)
+    """what the cache line format supports: no tab/newline/comma; blanks allowed except as the last character"""
+    return len(s) > 0 and ord(s[-1]) not in SPACE and all(ch not in '\t\n\r,' for ch in s)
 
 
 def precondition(case):
@@ -580,7 +678,7 @@ def precondition(case):
         if any(ch in '\t\n\r' for a in rec_alleles(r) for ch in a):
             return False
     keys = []
-    for run in case['history']:
+    for run in expand_case(case)['history']:
         for q in run['queries']:
             if q[2] < 0:
                 return False
@@ -597,7 +695,8 @@ def precondition(case):
 
 # ----------------------------------------------------------------------------- generators
 CONTIG_POOL = ['chr1', 'chr2', '1', 'X', 'chr1_S1', 'chr2_unphased', 'chrUn_7', 'KN1', 'c_random', 'xERCCy', 'chrM']
-SAMPLE_POOL = ['S1', 'S2', 'S3', 'A', 'B-1', 'x_y', 'NA12878', 'S1-S2', 'unphased', 'b6', 'CAST.EiJ']
+SAMPLE_POOL = ['S1', 'S2', 'S3', 'A', 'B-1', 'x_y', 'NA12878', 'S1-S2', 'unphased', 'b6', 'CAST.EiJ', 'donor 1', 'my sample x',
+               ' lead', 'donor  2', 'tail ']
 BASES = 'ACGT'
 
 
@@ -676,6 +775,74 @@ def gen_cfg(rng, vcf):
             'cache': rng.random() < 0.5, 'chrom': chrom}
 
 
+def gen_read(rng, vcf, contig=None):
+    """an aligned read over several sites of one contig; at a site its base is one of the record's alleles (so the
+    bases of one read usually belong to different samples), elsewhere a random base"""
+    recs = vcf['records']
+    contig = contig or (rng.choice(recs)['chrom'] if recs and rng.random() < 0.9 else rng.choice(vcf['contigs'] + ['chrZ']))
+    here = sorted(r['pos'] - 1 for r in recs if r['chrom'] == contig)
+    start = max(0, (rng.choice(here) if here else rng.randint(0, 8)) - rng.randint(0, 3))
+    k = rng.random()
+    if k < 0.6:
+        cigar = [[0, rng.randint(4, 14)]]
+    elif k < 0.8:
+        cigar = [[4, rng.randint(1, 2)], [0, rng.randint(2, 6)], [2, rng.randint(1, 2)], [0, rng.randint(2, 6)]]
+    else:
+        cigar = [[0, rng.randint(2, 6)], [1, rng.randint(1, 2)], [0, rng.randint(2, 6)], [4, 1]]
+    qlen = sum(l for o, l in cigar if o in (0, 1, 4))
+    seq = [rng.choice(BASES) for _ in range(qlen)]
+    read = {'chrom': contig, 'pos': start, 'seq': '', 'cigar': cigar}
+    for qp, rp in aligned_pairs(read):
+        at = [r for r in recs if r['chrom'] == contig and r['pos'] - 1 == rp]
+        if at and rng.random() < 0.9:
+            al = [a for a in rec_alleles(rng.choice(at)) if len(a) == 1 and a in 'ACGTN']     # BAM cannot store '*'
+            if al:
+                seq[qp] = rng.choice(al)
+    read['seq'] = ''.join(seq)
+    if rng.random() < 0.04:
+        read['unmapped'] = True
+    return read
+
+
+def gen_reads(rng, vcf):
+    reads = [gen_read(rng, vcf) for _ in range(rng.choice([1, 1, 2]))]
+    if rng.random() < 0.1:
+        reads.insert(rng.randrange(len(reads) + 1), None)
+    return reads
+
+
+def gen_getallele_case(rng):
+    """getAllele(reads) must not change the table: lookups before and after a read that shows S1's base at one site
+    and S2's base at a later one"""
+    samples = ['S1', 'S2'] + (['S3'] if rng.random() < 0.4 else [])
+    contig = rng.choice(['chr1', 'chr2', 'X'])
+    poss = sorted(rng.sample(range(2, 13), rng.choice([2, 3, 4])))
+    records = []
+    for pos in poss:
+        ref = rng.choice(BASES)
+        alt = rng.choice([b for b in BASES if b != ref])
+        g = [[0, 0], [1, 1]] + ([[rng.choice([0, 1])] * 2] if len(samples) == 3 else [])
+        if rng.random() < 0.5:
+            g[0], g[1] = g[1], g[0]
+        records.append({'chrom': contig, 'pos': pos, 'ref': ref, 'alts': [alt], 'gts': g, 'sep': '|'})
+    vcf = {'contigs': [contig, 'chrM'], 'samples': samples, 'records': records}
+    start = poss[0] - 1 - rng.randint(0, 1)
+    ln = poss[-1] - start + rng.randint(0, 2)
+    seq = [rng.choice(BASES) for _ in range(ln)]
+    for k, r in enumerate(records):
+        who = k % 2                                    # alternate between the two samples along the read
+        seq[r['pos'] - 1 - start] = rec_alleles(r)[r['gts'][who][0]]
+    read = {'chrom': contig, 'pos': start, 'seq': ''.join(seq), 'cigar': [[0, ln]]}
+    look = [[0, contig, r['pos'] - 1, b] for r in records for b in rec_alleles(r)]
+    rng.shuffle(look)
+    qs = look[:4] + [[2, [read]]] + look + [[2, [read]]] + look[:3]
+    sel = None if len(samples) == 2 or rng.random() < 0.5 else ['S1', 'S2']
+    hist = []
+    for lz, ca in rng.sample([(False, False), (True, False), (True, True), (False, True)], rng.choice([2, 3])):
+        hist.append({'cfg': {'phased': True, 'select': sel, 'ignore': None, 'lazy': lz, 'cache': ca, 'chrom': None}, 'queries': qs})
+    return {'vcf': vcf, 'history': hist}
+
+
 def gen_queries(rng, vcf, n=None):
     contigs = list(vcf['contigs']) + (['chrZ'] if rng.random() < 0.5 else [])
     sites = [(r['chrom'], r['pos'] - 1, r) for r in vcf['records']]
@@ -694,6 +861,8 @@ def gen_queries(rng, vcf, n=None):
             b = rng.choice(BASES)
         if rng.random() < 0.22:
             qs.append([1, cur, p])
+        elif rng.random() < 0.07:
+            qs.append([2, gen_reads(rng, vcf)])
         else:
             qs.append([0, cur, p, b])
     return qs
@@ -875,8 +1044,25 @@ def group_vals(g):
     out = []
     for k, sess in enumerate(g['sessions']):
         cv = case_val({'vcf': sess['vcf'], 'history': []})[0]
-        ops = [[i, [q[0], fw.to_val(q[1]), q[2]] + ([fw.to_val(q[3])] if q[0] == 0 else [])] for s_, i, q in g['ops'] if s_ == k]
+        ops = [[i, [q[0], fw.to_val(q[1]), q[2]] + ([fw.to_val(q[3])] if q[0] == 0 else [])]
+               for s_, i, q0 in g['ops'] if s_ == k for q in (read_sites(q0[1]) if q0[0] == 2 else [q0])]
         out.append([cv, [cfg_val(cf) for cf in sess['objects']], ops])
+    return out
+
+
+def group_fold(g, k, answers):
+    """answers of the expanded operations of session k -> answers of its original operations"""
+    out, n = [], 0
+    for s_, i, q in g['ops']:
+        if s_ != k:
+            continue
+        if q[0] == 2:
+            m = len(read_sites(q[1]))
+            out.append(fold_alleles(answers[n:n + m]))
+            n += m
+        else:
+            out.append(answers[n])
+            n += 1
     return out
 
 
@@ -936,6 +1122,11 @@ def gen_group(rng):
         n = rng.randint(2, 4)
         sessions[0]['objects'] = [gen_cfg(rng, vcf) for _ in range(n)]
         ops = [[0, rng.randrange(n), q] for q in gen_queries(rng, vcf, n=rng.randint(8, 20))]
+    if rng.random() < 0.5:
+        for _ in range(rng.choice([1, 2])):
+            s_ = rng.randrange(len(sessions))
+            ops.insert(rng.randrange(len(ops) // 2 + 1),
+                       [s_, rng.randrange(len(sessions[s_]['objects'])), [2, gen_reads(rng, sessions[s_]['vcf'])]])
     return {'sessions': sessions, 'ops': ops}
 
 
@@ -977,6 +1168,9 @@ def run_impl_cases(cases, jobs=8):
 
 
 def describe_query(q):
+    if q[0] == 2:
+        return 'getAllele(%s)' % ', '.join('None' if r is None else '<read %s:%d %s cigar %r>' % (r['chrom'], r['pos'], r['seq'], r['cigar'])
+                                           for r in q[1])
     return ('getAllelesAt(%r, %d, %r)' % (q[1], q[2], q[3])) if q[0] == 0 else ('has_location(%r, %d)' % (q[1], q[2]))
 
 
@@ -1061,6 +1255,7 @@ class Prop(fw.PropBase):
         rnd = [gen_case(self.rng) for _ in range(260 if quick else 18000)]
         rnd += [gen_case(self.rng, big=True) for _ in range(6 if quick else 400)]
         rnd += [gen_cache_key_case(self.rng) for _ in range(60 if quick else 1200)]
+        rnd += [gen_getallele_case(self.rng) for _ in range(40 if quick else 800)]
         exh = exhaustive_cases(self.rng, limit=(160 if quick else None))
         return corpus, rnd, exh
 
@@ -1080,9 +1275,12 @@ class Prop(fw.PropBase):
         distinct = set()
         hist_modes, hist_sel, hist_ign, hist_ans = {}, {}, {}, {}
         returns = switches = served = 0
-        for c, sp in zip(cases, spec):
+        self.cov['getAllele_calls'] = sum(1 for c in cases for run in c['history'] for q in run['queries'] if q[0] == 2)
+        for c in cases:
             names_written = set()
-            for run, sa in zip(c['history'], sp):
+            for run in c['history']:
+                run = expand_run(run)[0]
+                sa = spec_run_raw(c['vcf'], run)
                 cf = run['cfg']
                 m = ('cache' if cf['cache'] else '') + ('+lazy' if cf['lazy'] else '') or 'eager'
                 hist_modes[m] = hist_modes.get(m, 0) + 1
@@ -1150,7 +1348,7 @@ class Prop(fw.PropBase):
         self.cov['multi_object_precondition_hit_rate'] = round(sum(gpre) / max(1, len(gpre)), 4)
         self.cov['evaluations'] += nobj
         # ---- pysam's view of the generated VCF equals the abstraction handed to the model
-        nview = 0
+        nview = nreads = 0
         for i, (c, r) in enumerate(zip(cases, res)):
             if r.get('error'):
                 dis.append({'kind': 'impl-runner', 'case': i, 'error': r['error']})
@@ -1159,7 +1357,14 @@ class Prop(fw.PropBase):
             nview += len(mine)
             if mine != r['view'] or r['samples'] != c['vcf']['samples'] or r['contigs'] != c['vcf']['contigs']:
                 dis.append({'kind': 'vcf-abstraction', 'case': i, 'mine': mine[:3], 'pysam': r['view'][:3]})
+            exp_pairs = [[[list(x) for x in aligned_pairs(rd)] for rd in q[1] if rd is not None and not rd.get('unmapped')]
+                         for run, got in zip(c['history'], r['runs']) if not (got and got[0] == 'RAISE')
+                         for q in run['queries'] if q[0] == 2]
+            nreads += sum(len(x) for x in exp_pairs)
+            if exp_pairs != r['read_pairs']:
+                dis.append({'kind': 'read-abstraction (aligned pairs)', 'case': i, 'mine': exp_pairs[:2], 'pysam': r['read_pairs'][:2]})
         self.cov['vcf_records_compared_with_pysam_view'] = nview
+        self.cov['reads_compared_with_pysam_aligned_pairs'] = nreads
         # ---- implementation against the python specification (no model needed)
         nspec = 0
         for i, (c, r, sp, ok) in enumerate(zip(cases, res, spec, pre)):
@@ -1182,12 +1387,15 @@ class Prop(fw.PropBase):
                     continue
                 if bool(mpre[i]) != pre[i]:
                     dis.append({'kind': 'python-precondition-vs-coq', 'case': i, 'python': pre[i], 'coq': mpre[i]})
-                if mspec[i] != spec[i]:
+                plans = [expand_run(run)[1] for run in c['history']]
+                fold = lambda runs: [fold_run(pl, a) for pl, a in zip(plans, runs)]
+                if fold(mspec[i]) != spec[i]:
                     dis.append({'kind': 'python-spec-vs-coq-spec', 'case': i, 'python': spec[i], 'coq': mspec[i]})
                 got = [canon_impl_run(x) for x in r['runs']]
                 ntr += sum(len(x) for x in got)
-                if got != mo[i][0]:
-                    j = next((j for j in range(len(got)) if j >= len(mo[i][0]) or got[j] != mo[i][0][j]), 0)
+                mruns = fold(mo[i][0])
+                if got != mruns:
+                    j = next((j for j in range(len(got)) if j >= len(mruns) or got[j] != mruns[j]), 0)
                     dis.append({'kind': 'model-vs-impl-answers', 'case': i, 'run': j})
                 mfs = {fw.as_str(n): fw.as_str(t) for n, t in mo[i][1]}
                 if mfs != r['cache']:
@@ -1198,7 +1406,7 @@ class Prop(fw.PropBase):
             self.cov['traces_validated_against_impl'] = ntr
             self.cov['cache_files_compared'] = sum(len(r.get('cache', {})) for r in res)
             # names / cacheable rule
-            nm = [(c['history'][0]['cfg'], q[1]) for c in cases[:400] for q in c['history'][0]['queries'][:2]]
+            nm = [(c['history'][0]['cfg'], q[1]) for c in cases[:400] for q in expand_run(c['history'][0])[0]['queries'][:2]]
             mn = fw.run_model('C18', 5, [[cfg_val(cf), fw.to_val(ct)] for cf, ct in nm])
             for (cf, ct), o in zip(nm, mn):
                 if fw.as_str(o[0]) != cache_name(cf, ct) or bool(o[1]) != cacheable(ct):
@@ -1214,14 +1422,26 @@ class Prop(fw.PropBase):
                     continue
                 idx = [n for n, op in enumerate(g['ops']) if op[0] == k]
                 got = [canon_answer(r['answers'][n]) for n in idx]
-                if got != o6[0]:
+                if got != group_fold(g, k, o6[0]):
                     dis.append({'kind': 'model-vs-impl-answers (several objects)', 'group': gi, 'session': k})
                 if {fw.as_str(n): fw.as_str(t) for n, t in o6[1]} != r['caches'][k]:
                     dis.append({'kind': 'model-vs-impl-cache-files (several objects)', 'group': gi, 'session': k})
-                if [gspec[gi][n] for n in idx] != o8:
+                if [gspec[gi][n] for n in idx] != group_fold(g, k, o8):
                     dis.append({'kind': 'python-spec-vs-coq-spec (several objects)', 'group': gi, 'session': k})
                 if bool(o7) and o6[0] != o8:
                     dis.append({'kind': 'model-vs-spec (theorem instance!) (several objects)', 'group': gi, 'session': k})
+            # the fold of getAllele (python, used above) against the model's alleles_of (mode 9)
+            folds = []
+            for i, c in enumerate(cases):
+                for run, pl, ans in zip(c['history'], [expand_run(r_)[1] for r_ in c['history']], mo[i][0]):
+                    if ans != [-1]:
+                        folds += [[ans[k] for k in e[1]] for e in pl if e[0] == 'all']
+            folds = folds[:3000]
+            m9 = fw.run_model('C18', 9, [[f] for f in folds])
+            for f, o in zip(folds, m9):
+                if [o] != fold_alleles(f):
+                    dis.append({'kind': 'python-getAllele-fold-vs-coq', 'answers': f, 'coq': o})
+            self.cov['getAllele_folds_checked_in_coq'] = len(folds)
             # read_cached on arbitrary (also damaged) cache files: real method against the model's parser
             texts = [gen_cache_text(self.rng) for _ in range(150 if self.tier == 'quick' else 1500)]
             rt = fw.run_impl('impl_c18.py', {'cache_texts': texts})['texts']
@@ -1326,8 +1546,8 @@ class Prop(fw.PropBase):
         cf = case['history'][j]['cfg']
         q = case['history'][j]['queries'][k]
         mode = ('use_cache' if cf['cache'] else '') + ('+lazyLoad' if cf['lazy'] else '') or 'eager'
-        where = 'absent-contig' if q[1] not in case['vcf']['contigs'] else 'site'
-        key = '%s:%s:%s' % ('has_location' if q[0] else 'getAllelesAt', mode, where)
+        where = 'reads' if q[0] == 2 else ('absent-contig' if q[1] not in case['vcf']['contigs'] else 'site')
+        key = '%s:%s:%s' % (['getAllelesAt', 'has_location', 'getAllele'][q[0]], mode, where)
         what = ('run %d of %d [%s]: call %d %s returned %s; the VCF demands %s'
                 % (j + 1, len(case['history']), flags(cf), k + 1, describe_query(q), show_answer(got), show_answer(exp)))
         return key, what
@@ -1418,7 +1638,7 @@ class Prop(fw.PropBase):
         cf = g['sessions'][s_]['objects'][i]
         mode = ('use_cache' if cf['cache'] else '') + ('+lazyLoad' if cf['lazy'] else '') or 'eager'
         others = sorted(set((a, b) for a, b, _ in g['ops'][:n] if (a, b) != (s_, i)))
-        key = 'objects:%s:%s' % (mode, 'has_location' if q[0] else 'getAllelesAt')
+        key = 'objects:%s:%s' % (mode, ['getAllelesAt', 'has_location', 'getAllele'][q[0]])
         what = ('%d resolver objects in one process; operation %d on object %d of VCF %d [%s]: %s returned %s; that object\'s '
                 'settings and VCF demand %s; objects used before it: %s'
                 % (sum(len(x['objects']) for x in g['sessions']), n + 1, i, s_, flags(cf), describe_query(q),
